@@ -1,6 +1,8 @@
 package checks
 
 import (
+	"fmt"
+	"os"
 	"strings"
 
 	"verifharness/internal/core"
@@ -94,6 +96,146 @@ func amplifyAPI(env *core.Env, in core.Case, tr core.Case, why string) []core.Ca
 					}
 					fixed[u] = true
 				}
+			}
+		}
+		// targeted variants: a clause of the parsed problem that still holds literals fixed FALSE is only
+		// dangerous when those literals sit in the watched positions and the search falsifies the others.
+		// For each such clause: the free variables are renamed so that its free literals are positive (the
+		// search tries "false" first) and, in every input clause, the literals fixed false are moved to the
+		// front. Neither step changes what parse-time propagation derives.
+		unitSet := map[int]bool{}
+		var dumpCons [][]int
+		for _, e := range evs(tr) {
+			if s(e, "op") == "dump" {
+				d, _ := e["d"].(map[string]any)
+				for _, u := range toInts(d["units"]) {
+					unitSet[u] = true
+				}
+				if cl, ok := d["cons"].([]any); ok {
+					for _, k := range cl {
+						if km, ok := k.(map[string]any); ok {
+							dumpCons = append(dumpCons, toInts(km["lits"]))
+						}
+					}
+				}
+			}
+		}
+		nTargeted := 0
+		for _, dc := range dumpCons {
+			nFalse := 0
+			for _, l := range dc {
+				if unitSet[-l] {
+					nFalse++
+				}
+			}
+			if os.Getenv("VERIF_DEBUG_AMP") != "" {
+				fmt.Fprintf(os.Stderr, "AMP stale clause %v units %v nFalse %d\n", dc, unitSet, nFalse)
+			}
+			if nFalse == 0 || nTargeted >= 6 {
+				continue
+			}
+			nTargeted++
+			flip := map[int]bool{}
+			for _, l := range dc {
+				v := l
+				if v < 0 {
+					v = -v
+				}
+				if !fixed[v] && l < 0 {
+					flip[v] = true
+				}
+			}
+			c := deepCopy(in)
+			cons := consOf(in)
+			for _, k := range cons {
+				lits := toInts(k["lits"])
+				var front, back []int
+				for _, l := range lits {
+					v := l
+					if v < 0 {
+						v = -v
+					}
+					if flip[v] {
+						l = -l
+					}
+					if unitSet[-l] {
+						front = append(front, l)
+					} else {
+						back = append(back, l)
+					}
+				}
+				k["lits"] = append(front, back...)
+			}
+			c["cons"] = cons
+			res = append(res, c)
+			// A second late fact next to the first: the clause D that derived the fixed variable u of a stale
+			// literal (every other literal of D is false under the facts) is cloned with a fresh variable z in
+			// the place of u (z is derived when u is), and the clause (-u, -z, y) with a fresh y is placed right
+			// after the clause that kept the stale literal. If that region is not examined again, both watched
+			// literals of the new clause are stale and y, which the formula forces, may come out false.
+			for _, l := range dc {
+				if !unitSet[-l] || s(in, "front") == "slice" {
+					continue
+				}
+				u := -l
+				orig := consOf(in)
+				at, from := -1, -1
+				for i, k := range orig {
+					have := map[int]bool{}
+					lits := toInts(k["lits"])
+					for _, x := range lits {
+						have[x] = true
+					}
+					all := true
+					for _, x := range dc {
+						if !have[x] {
+							all = false
+						}
+					}
+					if all && at < 0 {
+						at = i
+					}
+					if have[u] && len(lits) >= 2 && from < 0 {
+						reason := true
+						for _, x := range lits {
+							if x != u && !unitSet[-x] {
+								reason = false
+							}
+						}
+						if reason {
+							from = i
+						}
+					}
+				}
+				if at < 0 || from < 0 || at == from {
+					continue
+				}
+				z, y := n0+1, n0+2
+				var clone []int
+				for _, x := range toInts(orig[from]["lits"]) {
+					if x == u {
+						x = z
+					}
+					clone = append(clone, x)
+				}
+				var cons2 []gen.M
+				for i, k := range orig {
+					cons2 = append(cons2, k)
+					if i == from {
+						cons2 = append(cons2, gen.Clause(clone...))
+					}
+					if i == at {
+						cons2 = append(cons2, gen.Clause(l, -z, y))
+					}
+				}
+				// removing a clause during propagation moves the LAST clause of the list into its place: a few
+				// satisfiable clauses over two more fresh variables keep the region of interest away from the end
+				p, q := y+1, y+2
+				cons2 = append(cons2, gen.Clause(p, q), gen.Clause(p, -q), gen.Clause(-p, q), gen.Clause(q, p))
+				c2 := deepCopy(in)
+				c2["cons"], c2["n"] = cons2, q
+				res = append(res, c2)
+				break
 			}
 		}
 		for variant := 0; variant < 6; variant++ {
